@@ -1132,6 +1132,19 @@ class Extractor {
       if (M->isDeleted()) {
         J.raw(",\"deleted\":1");
       }
+      if (M->isDefaulted()) {
+        J.raw(",\"defaulted\":1");
+      }
+      // a member of a class template specialisation has a definition only if some use instantiated it
+      if (M->isDefined()) {
+        J.raw(",\"def\":1");
+      }
+      {
+        unsigned mline = 0;
+        FileOf(M->getLocation(), &mline);
+        J.raw(",\"line\":");
+        J.num(mline);
+      }
       J.raw(",\"acc\":");
       J.num(M->getAccess());
       if (M->size_overridden_methods()) {
